@@ -467,6 +467,11 @@ func canonical(text string, o *observation, g *rig) string {
 	}
 	static[o.OriginPort], static[o.UpstreamPort] = "ORIGIN", "UPSTREAM"
 	static[o.ProxyPort], static[o.APIPort] = "PROXY", "API"
+	static[o.AuxPort], static[o.PACPort] = "UPSTREAM2", "PACSERVER"
+	if strings.HasPrefix(o.PACRaw, "data:") {
+		// --pac given inline: the script (not a secret) names this run's ports
+		text = strings.ReplaceAll(text, o.PACRaw, "data:<PAC-SCRIPT>")
+	}
 	return canonicalWith(text, o.Dir, static)
 }
 
@@ -717,6 +722,7 @@ func checkCase(ctx *core.Ctx, c *Case) {
 			continue
 		}
 		compareModel(ctx, c, k, o, plans[k])
+		comparePAC(ctx, c, o, plans[k])
 		// the exchanges really used the credentials
 		for i, r := range o.OK {
 			if r.Status != 200 {
